@@ -1,11 +1,13 @@
 //! Fragment alphabets of pest's concrete syntax and their enumeration.
 pub const FRAGMENTS: &[&str] = &[
     "a", "b_1", " ", "=", "_", "@", "$", "!", "{", "}", "(", ")", "[", "]", "~", "|", "?", "*", "+", "&", "\"a\"", "\"a", "'a'", "'a", "'a'..'b'", "..", "^\"a\"", "^", "\"\\u{D800}\"",
-    "\"\\u{110000}\"", "\"\\u{0}\"", "\"\\x8\"", "\"\\q\"", "\"\\u{41}\"", "'\\u{D800}'..'a'", "{0}", "{3}", "{1,}", "{,2}", "{1,2}", "{2,1}", "{,0}", "{1,0}", "{0,0}", "{0,1}", "{2,2}", "{4294967296}", "{1,99999999999}",
+    "\"\\u{DFFF}\"", "\"\\u{DFFE}\"", "\"\\u{E000}\"", "\"\\u{D7FF}\"", "\"\\u{10FFFF}\"", "\"\\u{110000}\"", "\"\\u{0}\"", "\"\\x8\"", "\"\\q\"", "\"\\u{41}\"", "'\\u{D800}'..'a'", "{0}", "{3}", "{1,}", "{,2}", "{1,2}", "{2,1}", "{,0}", "{1,0}", "{0,0}", "{0,1}", "{2,2}", "{4294967296}", "{1,99999999999}",
     "PUSH", "PUSH(", "PEEK", "PEEK[", "PEEK[1..2]", "PEEK[99999999999..]", "PEEK[..-99999999999]", "PEEK[-1..]", "PUSH_LITERAL(\"a\")", "PUSH_LITERAL(", "#t =", "#", "//", "///", "//!", "/*", "*/", "é",
     "😀", "\r\n", "\n", ",", "-1", "0", "r = {", "ANY", "WHITESPACE",
     // characters that tools like to treat specially: byte order mark, NUL, line separator
     "\u{feff}", "\0", "\u{2028}",
+    // characters whose low byte is an ASCII letter / digit / hex digit
+    "\u{161}", "\u{132}", "\u{141}",
 ];
 
 /// Fragments that can occur inside a rule body (used for the deeper body-only enumeration).
@@ -89,4 +91,22 @@ pub fn lexemes(text: &str) -> Vec<(usize, usize)> {
         out.push((off(s), off(i)));
     }
     out
+}
+
+
+/// Long texts: every kind of token far longer than any counter or buffer a tool might keep
+/// (comments, literals, identifiers, rule lists, character ranges).
+pub fn long_texts() -> Vec<String> {
+    let mut v = vec![];
+    for n in [300usize, 1100, 2500] {
+        v.push(format!("r = {{ \"a\" }} // {}\n", "x".repeat(n)));
+        v.push(format!("/* {} */ r = {{ \"a\" }}", "y".repeat(n)));
+        v.push(format!("r = {{ \"{}\" }}", "z".repeat(n)));
+        v.push(format!("{} = {{ \"a\" }}", "i".repeat(n)));
+        v.push(format!("/// {}\nr = {{ \"a\" }}", "d".repeat(n)));
+        v.push(format!("r = {{ {} }}", vec!["'a'..'b'"; n / 10].join(" ~ ")));
+        v.push((0..n / 10).map(|i| format!("r{i} = {{ \"a\" }} // c{i}\n")).collect::<String>());
+        v.push(format!("r = {{ \"a\" }} // {}\n", "\u{1f600}".repeat(n / 4)));
+    }
+    v
 }
